@@ -90,7 +90,7 @@ def _process_batch(modname: str, cases: Sequence[dict], opts: dict) -> List[dict
             rec = {"id": case.get("id"), "outcome": outcome, "detail": detail}
             if tr.status == "ok":
                 rec["cpp_sha"] = hashlib.sha256(tr.cpp.encode()).hexdigest()[:16]
-            if outcome not in ("match", "reject", "skip") and not outcome.startswith("skip"):
+            if (outcome not in ("match", "reject", "skip") and not outcome.startswith("skip")) or outcome in opts.get("keep_case_on", ()):
                 rec["case"] = {k: v for k, v in case.items() if not k.startswith("_")}
                 if tr.status == "ok" and opts.get("keep_cpp", True):
                     rec["cpp"] = tr.cpp
